@@ -138,6 +138,13 @@ def judge(acc, seq, si, cfg):
         acc.violation('element_alone_lots', f"C06:element_alone_lots:{cfg}:{[ELEMS[e][0] for e in seq]}", case,
                       got=e_lots_alone, exp=e_lots, note='an element on its own does not yield its specified lots')
         return
+    for e in seq:
+        # a lot element (incl. an aliquot that divides a lot) yields no aliquots of its own: the dividing aliquot belongs to the lot
+        if not ELEMS[e][3] and (alone(e, cfg)[1] or alone(e, cfg)[2]):
+            acc.violation('element_alone_qqs', f"C06:element_alone_qqs:{cfg}:{ELEMS[e][0]}", case,
+                          got=[alone(e, cfg)[1], alone(e, cfg)[2]], exp=[[], []],
+                          note='a lot element on its own is also reported as a stand-alone aliquot')
+            return
     if lots != e_lots:
         acc.violation('lots_not_compositional', f"C06:lots_not_compositional:{key}", case, got=lots, exp=e_lots)
         return
